@@ -13,7 +13,7 @@ RULE = ('cases = (i) cutoff+dr: every decimal step with <= 3 decimals in [0.001,
         '(iv) rejection: all three, step alone, zero / negative / non-numeric values of all six keys; (v) defaults for every subset of omitted keys; '
         '(vi) end-to-end: every tabulation target x (step, count, cutoff) triples incl. float-awkward ones, rows counted and spacing measured with the '
         'independent readers; all through the public ConfigParser / Configuration route; every lattice point evaluated; non-trivial = every pair')
-RULE += "; steps with 7 decimals; documented target synonyms; the same triples through the potable command line into a pre-filled OUTPUT_FILE; zero / nan / inf / 1e-320 grid values and all-three-with-a-zero rejected; the tabulation object's nr / cutoff / dr (nrho / cutoff_rho / drho) properties describe the written grid; (cutoff, nr) row-count sweep over every target; the two grids stated independently: every ordered pair of 8 different (step, rows, cutoff) triples (two pairs share the step and differ in rows) for r and rho, each stated 3 ways, for every many-body target; a step alone for one grid next to every acceptable way of stating the other grid is rejected"
+RULE += "; steps with 7 decimals; steps with 11-16 decimals (unit conversions); documented target synonyms; the same triples through the potable command line into a pre-filled OUTPUT_FILE; zero / nan / inf / 1e-320 grid values and all-three-with-a-zero rejected; the tabulation object's nr / cutoff / dr (nrho / cutoff_rho / drho) properties describe the written grid; (cutoff, nr) row-count sweep over every target; the two grids stated independently: every ordered pair of 8 different (step, rows, cutoff) triples (two pairs share the step and differ in rows) for r and rho, each stated 3 ways, for every many-body target; a step alone for one grid next to every acceptable way of stating the other grid is rejected"
 ASSUMPTIONS = [
     'decimal text is rendered as the shortest decimal literal (what a user types); k*step is computed exactly with decimal arithmetic',
     'cutoff=(nr-1)*dr is compared as a float product within 2 ulp; dr=cutoff/(nr-1) is observed through the written table',
@@ -44,6 +44,10 @@ def cases(tier):
     for st in fine7:
         out.append(dict(kind='lattice', tier=tier, grid='r', step=st, k0=1, k1=3000 if tier == 'quick' else 12000))
         out.append(dict(kind='lattice', tier=tier, grid='rho', step=st, k0=1, k1=1500 if tier == 'quick' else 6000))
+    # steps converted from other units (11-16 decimals): a derived cutoff "tidied" to fewer decimals no longer reproduces the step
+    for st in ('0.00529177210903', '0.0188972612457', '0.0033333333333333', '0.010000000001', '0.123456789012345'):
+        out.append(dict(kind='lattice', tier=tier, grid='r', step=st, k0=1, k1=700 if tier == 'quick' else 5000))
+        out.append(dict(kind='lattice', tier=tier, grid='rho', step=st, k0=1, k1=350 if tier == 'quick' else 2500))
     for st in steps3[::2]:
         out.append(dict(kind='lattice', tier=tier, grid='rho', step=str(st), k0=1, k1=1000))
     for st in fine[::2]:
